@@ -1338,8 +1338,8 @@ func (c *Check) indexEntriesCarryNoRecord(rule string) {
 // "not found" for exactly the same record families (the families whose found-result, or nil stored value, is the cause of a
 // rejecting exit).
 func (c *Check) notFoundAgreement(rule string, grpc, legacy []querySig) {
-	causes := func(f *Func) string {
-		set := map[string]bool{}
+	var collect func(f *Func, set map[string]bool, depth int)
+	collect = func(f *Func, set map[string]bool, depth int) {
 		for _, pa := range c.P.PathsOf(f) {
 			if pa.Exit != ExitRevert {
 				continue
@@ -1353,6 +1353,12 @@ func (c *Check) notFoundAgreement(rule string, grpc, legacy []querySig) {
 			if last == nil {
 				continue
 			}
+			// rejected because a hand-written callee (the sibling route it delegates to) rejected: that callee's causes
+			if ft := last.Fact.T; last.Fact.Neg && ft.Op == "ok" && len(ft.A) == 1 && depth < 2 {
+				if h := c.P.FuncNamed(stripConv(ft.A[0]).Op); h != nil && h.Body != nil && h.isHandWritten() && h != f {
+					collect(h, set, depth+1)
+				}
+			}
 			last.Fact.T.Walk(func(t *Term) bool {
 				t = stripConv(t)
 				if t.Op == "res" && len(t.A) == 2 && !t.A[0].IsAt("0") {
@@ -1365,6 +1371,10 @@ func (c *Check) notFoundAgreement(rule string, grpc, legacy []querySig) {
 				return true
 			})
 		}
+	}
+	causes := func(f *Func) string {
+		set := map[string]bool{}
+		collect(f, set, 0)
 		var ks []string
 		for k := range set {
 			ks = append(ks, k)
